@@ -77,6 +77,10 @@ func (x verifC13Ixn) localL4() bool { return x.Peer == "" && len(x.Perms) == 0 }
 type verifC13WOp struct {
 	Kind string      `json:"kind"` // put | del
 	Ixn  verifC13Ixn `json:"ixn"`
+	// From (legacy family only): the put is an update BY ID of the existing intention From, which thereby
+	// becomes Ixn (the pre-1.9 API allowed changing source and destination of an intention; the ID-based
+	// update of the config-entry-backed legacy API still allows changing the source).
+	From *verifC13Ixn `json:"rename_of,omitempty"`
 }
 
 // verifC13Set is the first recorded op of a case: the final intention set every plan must end in.
@@ -128,6 +132,15 @@ func verifC13Final(ops []verifC13WOp) (map[string]verifC13Ixn, error) {
 	for i, op := range ops {
 		switch op.Kind {
 		case "put":
+			if op.From != nil {
+				if _, ok := m[op.From.key()]; !ok {
+					return nil, fmt.Errorf("op %d renames %s which does not exist", i, op.From.key())
+				}
+				if _, ok := m[op.Ixn.key()]; ok {
+					return nil, fmt.Errorf("op %d renames onto %s which exists", i, op.Ixn.key())
+				}
+				delete(m, op.From.key())
+			}
 			m[op.Ixn.key()] = op.Ixn
 		case "del":
 			if _, ok := m[op.Ixn.key()]; !ok {
